@@ -60,21 +60,22 @@ def run(tier, seed):
             new_violations.append((v, path))
     for k, v, path in known_hits:
         C.say("KNOWN-FINDING: property=%s %s [class=%s, %d cases this run, minimal: %s]" % (
-            PROP, k["what"], v["group"], v["count"], json.dumps(v["case"], ensure_ascii=False)))
+            PROP, k["what"], v["group"], v["count"], json.dumps(v["case"], ensure_ascii=False)[:200]))
     for v, path in new_violations:
         C.say("VIOLATION property=%s replay=%s" % (PROP, path))
         C.say("  class=%s cases=%d api=%s fault=%s" % (v["group"], v["count"], v["api"], json.dumps(v["plan"])))
-        C.say("  minimal case: %s" % json.dumps(v["case"], ensure_ascii=False))
-        C.say("  %s" % v["detail"])
+        shown = json.dumps(v["case"], ensure_ascii=False)
+        C.say("  minimal case: %s" % (shown if len(shown) < 300 else shown[:300] + "... (%d bytes, full text in the replay file)" % len(v["case"]["text"].encode())))
+        C.say("  %s" % v["detail"][:400])
     wall = t.s()
     ex = r["executions"]
     coverage = {
         "evaluations": ex,
         "distinct_nontrivial": r["distinct_nontrivial"],
-        "rule": ("case = (text, span|position, api in {to_string, write!, display(default), display(custom recording option)}); "
+        "rule": ("case = (text, span|position, api in {to_string, write!, display(default), display(custom recording option), display(custom decorating option)}); "
                  "all strings of <= %d chars over {LF,CR,TAB,a,wide,2-byte} x all spans and positions are enumerated, "
-                 "longer strings (<= 9 chars) and long texts (up to ~1200 lines) are drawn from the seed; every case runs fault-free under all "
-                 "four APIs against the reference model, then with one injected fault per execution (k-th sink write or k-th callback call fails, "
+                 "longer strings (<= 9 chars) long texts (up to ~1200 lines), a few huge texts (10 000+ lines), texts with one very wide line (70 .. 132 000 characters, crossing 2^8/2^15/2^16/2^17 cells) and texts with characters that have no agreed cell model (columns not judged there) are drawn from the seed; every case runs fault-free under all "
+                 "five APIs against the reference model, then with one injected fault per execution (k-th sink write or k-th callback call fails, "
                  "transient or sticky, before or after writing). distinct_nontrivial counts distinct (text, start, end, kind) cases whose text is empty or "
                  "contains a non-'a' character, or whose span touches end of input or a line start; sampled cases are de-duplicated by hash."
                  % r["exhaustive_max_len"]),
